@@ -72,6 +72,9 @@ def run_tv(ctx, n_cases, max_len=800):
         o['threshold_kwargs'] = th
         o['return_samples'] = i % 5 != 4
         mode = ['same', 'lowered', 'changed', 'object'][i % 4]
+        inexact = mode == 'object' and i % 8 == 7      # a reduction whose result is not a short decimal (.7 - .2 = 0.49999999999999994), with feature values exactly .5
+        if inexact:
+            th.update({'amp_fraction_threshold': .7, 'amp_consistency_threshold': .3, 'period_consistency_threshold': .3, 'monotonicity_threshold': .3, 'min_n_cycles': 1})
         with warnings.catch_warnings():
             warnings.simplefilter('ignore')
             try:
@@ -97,7 +100,7 @@ def run_tv(ctx, n_cases, max_len=800):
             raised, out = '', None
             try:
                 if mode == 'object':
-                    red = float(rng.choice([0.0, 0.1]))
+                    red = 0.2 if inexact else float(rng.choice([0.0, 0.1]))
                     if min(v - red for k, v in th.items() if k.endswith('_threshold')) < 0:
                         red = 0.0            # a reduction below zero is an invalid setting (C19), not a case of C16
                     b = Bycycle(center_extrema=o['center_extrema'], burst_method='cycles', thresholds=copy.deepcopy(th),
@@ -148,10 +151,14 @@ def run(ctx):
     if ctx.quick:
         mc_feat.run_edges(ctx, 'C16', 4, 1)
         run_tv(ctx, 160)
+        from props import c14
+        c14.run_group_models(ctx, 1, pid='C16')          # BycycleGroup.recompute_edges: every model's table, 2-D and 3-D (n0 != n1)
     else:
         mc_feat.run_edges(ctx, 'C16', 4, 2)
         mc_feat.run_edges(ctx, 'C16', 5, 1)
         run_tv(ctx, 3000, max_len=2600)
+        from props import c14
+        c14.run_group_models(ctx, 4, pid='C16')
 
 
 def replay(ctx, case):
